@@ -12,13 +12,14 @@ RULE = ('per random address (7 modes x full/rx-only/asymmetric): the expected rx
         'type, the tx id, random ids, all 256 first data bytes, empty data (exhaustive per address) compared impl.is_for_me vs the '
         'extracted model predicate (proved equivalent to the documented condition, theorem C09_iff); identifiers/prefix vs model; '
         'mirrored acceptance; frames through a layer mid-reception; functional/physical sends at every length around the single '
-        'frame limit for the 8 link sizes. non-trivial = distinct (address, frame) pairs / distinct cases')
+        'frame limit for the 8 link sizes. non-trivial = distinct (address, frame) pairs / distinct cases'
+        ' (emitted) physical and functional sends, own multi-frame messages and receptions answered with Flow Control, interleaved, with the rate limiter holding frames back: every emitted frame carries the documented identifier (functional only for Single Frames of functional requests). Addresses also carry legal parameters their mode does not use.')
 ASSUME = ['identifiers range over 0 <= id < 2^29 (CAN); non-integer address arguments are covered by C16']
 
 
 def addr_variants(rng):
     """yield (label, address dict usable for rx, isotp address object)"""
-    a = rand_address(rng)
+    a = with_stray(rng, rand_address(rng), 0.3)
     yield 'full', a
     rx = dict(a, rx_only=True)
     for k in ('txid',):
